@@ -122,6 +122,11 @@ class _P:
                 r = self.alt()
                 self.eat(")")
                 return ("pla", r)
+            if self.t.startswith("?>", self.i):
+                self.i += 2
+                r = self.alt()
+                self.eat(")")
+                return ("atomic", r)
             if self.t.startswith("?<=", self.i) or self.t.startswith("?<!", self.i):
                 kind = "plb" if self.t[self.i + 2] == "=" else "nlb"
                 self.i += 3
@@ -225,7 +230,7 @@ def has_la(n):
     k = n[0]
     if k in ("lit", "cls", "bref", "str", "set"):
         return False
-    if k in ("nla", "pla", "prep", "plb", "nlb"):
+    if k in ("nla", "pla", "prep", "plb", "nlb", "atomic"):
         return True
     if k in ("cat", "alt"):
         return any(has_la(x) for x in n[1])
@@ -248,7 +253,7 @@ def has_bref(n):
         return False
     if k in ("cat", "alt"):
         return any(has_bref(x) for x in n[1])
-    if k in ("grp", "nla", "pla", "rep", "prep", "plb", "nlb"):
+    if k in ("grp", "nla", "pla", "rep", "prep", "plb", "nlb", "atomic"):
         return has_bref(n[1])
     if k in ("cap", "capval"):
         return has_bref(n[2])
@@ -270,7 +275,7 @@ def expand_brefs(n, g):
         return n
     if k in ("cat", "alt"):
         return (k, [expand_brefs(x, g) for x in n[1]])
-    if k in ("grp", "nla", "pla", "plb", "nlb"):
+    if k in ("grp", "nla", "pla", "plb", "nlb", "atomic"):
         return (k, expand_brefs(n[1], g))
     if k in ("rep", "prep"):
         return (k, expand_brefs(n[1], g), n[2], n[3])
@@ -457,6 +462,20 @@ class Tr:
             return inter(K, self.lang(n[1], self.w.ANY, lacols, lacols, None))
         if k in ("plb", "nlb"):
             raise Unsupported("look-behind that is not at the very start of the regex")
+        if k == "atomic":
+            # (?>A|B|C): the engine commits to the FIRST alternative that matches here, whatever follows.
+            # Exact when each alternative has a unique extent at a position (replay confirms every witness anyway).
+            self.rewrites.add("atomic group read as 'first matching alternative wins'")
+            body = n[1]
+            alts = body[1] if body[0] == "alt" else [body]
+            outs, earlier = [], []
+            for a in alts:
+                r = self.lang(a, K, cols, lacols, grpcols)
+                for e in earlier:
+                    r = inter(r, comp(self.lang(e, self.w.ANY, lacols, lacols, None)))
+                outs.append(r)
+                earlier.append(a)
+            return union(outs)
         if k == "cat":
             r = K
             for x in reversed(n[1]):
@@ -646,6 +665,8 @@ def sample(n, rnd, alphabet=PRINTABLE, star_max=3):
         return sample(n[1], rnd, alphabet, star_max)
     if k == "cap":
         return sample(n[2], rnd, alphabet, star_max)
+    if k == "atomic":
+        return sample(n[1], rnd, alphabet, star_max)
     if k in ("rep", "prep"):
         lo, hi = n[2], n[3]
         if hi is None or hi > lo + star_max + 2:
